@@ -31,7 +31,7 @@ Record env := {
    (32-byte proof nodes enforced): flip to [true] when the fix is committed. *)
 Definition code_is_strict : bool := false.
 (* ... and for pending_fixes/C19-2 (refusals and no-ops answered with the held STH cosigned). *)
-Definition code_cosigns_held : bool := true.
+Definition code_cosigns_held : bool := false.
 
 Definition env_idhash (e : env) (id : logid) : option (option bytes) :=
   match find (fun x => bytes_eqb (fst x) id) (e_logs e) with Some x => Some (snd x) | None => None end.
